@@ -178,5 +178,6 @@ def run(p, rep, tier):
     c01.r4(p, rep)
     rep.rule("C05.R1", "merged transpose = inner permutation indexed by the outer permutation", "T-DER [S]", floor=1)
     c05.r1(p, rep)
+    c01.r10(p, rep)  # a skipped window check changes which positions are transposed
     c01.r9(p, rep)  # composition / inversion relations break when split and re-assembly disagree on the nesting order
     rep.info["undecided"] = "transposition, output permutation, regrouping, inversion and composition relations (value-level); e.g. the non-adjacent diagonal defect of classical_from_numpy.diagonal is not found"
